@@ -370,4 +370,12 @@ theorem shared_writes_as_modelled :
     ∧ JinjaV.Gen.ModuleProtocol.environmentRenderPathSelfWrites = ["_load_template:cache[]"]
     ∧ JinjaV.Gen.ModuleProtocol.rendersCreateFreshContext = true := by decide
 
+/-- Objects that hang off a cached default module — the module, its Macro objects, the Context the module body was
+    rendered in — are shared by every render on the environment; the task model treats them as immutable values
+    (`Env.make t`).  Over the regenerated table: none of these classes assigns to or mutates in place an attribute of
+    `self` after construction, so a call made by one render leaves nothing on the object for another render to read. -/
+theorem shared_objects_immutable_after_construction :
+    JinjaV.Gen.ModuleProtocol.sharedObjectSelfWrites =
+      [("Macro", []), ("Context", []), ("TemplateModule", []), ("TemplateExpression", [])] := by decide
+
 end JinjaV.C37
